@@ -76,6 +76,8 @@ func realToken(name string) *token.Token {
 		return par(&ddptypes.TypeAlias{Name: "Nummer", Underlying: ddptypes.ZAHL, GramGender: ddptypes.FEMININ}, false)
 	case "pZL":
 		return par(ddptypes.ListType{ElementType: ddptypes.ZAHL}, false)
+	case "pVL":
+		return par(&ddptypes.TypeAlias{Name: "Vektor", Underlying: ddptypes.ListType{ElementType: ddptypes.ZAHL}, GramGender: ddptypes.MASKULIN}, false)
 	}
 	fmt.Fprintf(os.Stderr, "unknown vocabulary name %q\n", name)
 	os.Exit(2)
